@@ -20,12 +20,12 @@ import (
 
 var c09Delims = []string{`"`, `'`, "`", "(", ")", "[", "]", "{", "}", "<", ">", "|", `\`, "/", "#", "=", ":", ";", ",", ".", "*", "+", "?", "^", "$", "%", "&", "~", "!", "@", "-", "_", " "}
 
-// c09DelimValues: d, dd, d..d around a word, and the closing partner forms for brackets.
+// c09DelimValues: d, dd, d around a word, and the closing partner forms for brackets.
 func c09DelimValues() []string {
 	var out []string
 	close := map[string]string{"(": ")", "[": "]", "{": "}", "<": ">"}
 	for _, d := range c09Delims {
-		out = append(out, d, d+d, d+"hot"+d, d+"hot", "hot"+d)
+		out = append(out, d, d+d, d+"hot"+d)
 		if cl, ok := close[d]; ok {
 			out = append(out, d+cl, d+"hot"+cl)
 		}
@@ -68,7 +68,7 @@ func c09E2E(c *Ctx, stream string) {
 		for _, v := range c09DelimValues() {
 			for _, n := range kinds {
 				k++
-				if !full && n != "focus" && k%5 != int(c.Seed%5) {
+				if !full && n != "focus" && k%9 != int(c.Seed%9) {
 					continue
 				}
 				c09Session(c, "e2e-delim-hook", diamond, []string{n + "=" + v, n + " = " + v + "   ", n + "=" + v + "  //: a comment", "top"}, false)
@@ -97,7 +97,10 @@ func c09E2E(c *Ctx, stream string) {
 				if !full && (ni+vi)%3 != int(c.Seed%3) && n != "focus" {
 					continue
 				}
-				for _, cmd := range []string{"-top", "-tree", "-peek=."} {
+				for ci, cmd := range []string{"-top", "-tree", "-peek=."} {
+					if !full && ci > 0 && n != "focus" {
+						continue
+					}
 					c09CLI(c, "e2e-long-cli", mixed, []string{cmd, "-" + n + "=" + v, "-output=out", "p"}, nil)
 				}
 			}
